@@ -21,7 +21,8 @@ import (
 	"zogverif/zh"
 )
 
-var c15Methods = []string{"GET", "HEAD", "POST", "PUT", "PATCH", "DELETE", "OPTIONS"}
+// method tokens are case-sensitive (RFC 9110): "get" and "Head" are extension methods, not GET / HEAD
+var c15Methods = []string{"GET", "HEAD", "POST", "PUT", "PATCH", "DELETE", "OPTIONS", "get", "Head", "PROPFIND"}
 
 type c15CT struct {
 	value    string
